@@ -52,8 +52,8 @@ META = {
         "R8 also covers array-valued eta: an array numbered on the full grid must be restricted to the active grid before "
         "it is gathered with l2g_faces (known finding in Mpfa and Mpsa). R10: a map_grid(<sub-grid>) reached from the "
         "in-loop local discretization (one level of self-method calls) must receive its rotation from discretize, fixed "
-        "before the loop (known findings: the frame is refitted per sub-grid in Mpfa, Mpsa, Biot). R11: the cell set "
-        "returned by cell_ind_for_partial_update, concatenated over independent modes, is uniqued (known finding). "
+        "before the loop (fixed in 9eb643a6e). R11: the cell set "
+        "returned by cell_ind_for_partial_update, concatenated over independent modes, is uniqued (fixed in 536488c03). "
         "Decides this bookkeeping (a necessary condition for split independence), not equality of matrix values, "
         "not the overlap construction in subproblems()/cell_ind_for_partial_update, not numba-vs-python inverters."),
     "rule_text": "one obligation per (local matrix | accumulator x stage | removal call | map call | key | yield)",
@@ -2464,7 +2464,20 @@ MUTANTS = [
     _m("biot-loop-bc-faces-in-subgrid", BIOT, "                active_bound, sub_sd, l2g_faces\n", "                active_bound, sub_sd, faces_in_subgrid\n", "R8"),
     _m("biot-loop-tensor-cells-in-subgrid", BIOT, "loc_c = active_constit.restrict_to_cells(l2g_cells)", "loc_c = active_constit.restrict_to_cells(cells_in_subgrid)", "R8"),
     _m("mpfa-loop-tensor-from-full-grid", MPFA, "loc_k = active_k.restrict_to_cells(l2g_cells)", "loc_k = k.restrict_to_cells(l2g_cells)", "R8"),
-    _m("mpfa-eta-gathered-with-faces-in-subgrid", MPFA, "eta=eta, sub_sd=sub_sd, l2g_faces=l2g_faces", "eta=eta, sub_sd=sub_sd, l2g_faces=faces_in_subgrid", "R8"),
+    _m("mpfa-eta-gathered-with-faces-in-subgrid", MPFA, "eta=active_eta, sub_sd=sub_sd, l2g_faces=l2g_faces",
+       "eta=active_eta, sub_sd=sub_sd, l2g_faces=faces_in_subgrid", "R8"),
+    # --- reverted fixes (536488c03, 9796a25de, 9eb643a6e)
+    _m("revert-fix-active-cells-not-uniqued", FVUTILS, "    cell_ind = np.unique(cell_ind)\n    face_ind.sort()\n",
+       "    cell_ind.sort()\n    face_ind.sort()\n", "R11", control=True),
+    _m("revert-fix-mpfa-eta-from-full-grid", MPFA, "eta=active_eta, sub_sd=sub_sd, l2g_faces=l2g_faces", "eta=eta, sub_sd=sub_sd, l2g_faces=l2g_faces", "R8"),
+    _m("revert-fix-mpsa-eta-from-full-grid", MPSA, "eta=active_eta, sub_sd=sub_g, l2g_faces=l2g_faces", "eta=eta, sub_sd=sub_g, l2g_faces=l2g_faces", "R8"),
+    _m("revert-fix-mpfa-frame-refitted-per-subgrid", MPFA, "                nodes,\n            ) = pp.map_geometry.map_grid(sd, R=rotation)\n",
+       "                nodes,\n            ) = pp.map_geometry.map_grid(sd)\n", "R10"),
+    _m("revert-fix-mpsa-frame-refitted-per-subgrid", MPSA, "            nodes,\n        ) = pp.map_geometry.map_grid(sd, R=rotation)\n",
+       "            nodes,\n        ) = pp.map_geometry.map_grid(sd)\n", "R10"),
+    _m("biot-rotation-not-passed-to-local-discretization", BIOT, "                inverter=inverter,\n                rotation=rotation,\n            )",
+       "                inverter=inverter,\n            )", "R10"),
+    _m("mpsa-rotation-not-forwarded-to-reduce-grid", MPSA, "sd, constit = self._reduce_grid_constit_2d(sd, constit, rotation)", "sd, constit = self._reduce_grid_constit_2d(sd, constit)", "R10"),
     # --- R7: update tables
     _m("biot-divergence-listed-as-face-left", BIOT, "        scalar_cell_left = [\n            self.displacement_divergence_matrix_key,\n",
        "        scalar_cell_left = [\n", "R7"),
